@@ -401,7 +401,7 @@ def run_query(spec, hb, q, args, known):
             cands.append(r)
         if bad:
             qr.verdict = 'INCONCLUSIVE'; qr.detail = 'functions without body (would be silently nondet): ' + ' '.join(sorted(set(bad))); return qr
-        if unwind_fail:
+        if unwind_fail and not cands:
             qr.verdict = 'INCONCLUSIVE'; qr.detail = 'unwinding assertion failed (bound too small): ' + ' '.join(unwind_fail[:5]); return qr
         if undecided and not cands:
             # cbmc leaves properties UNKNOWN once others have failed; without any failure that is an undecided query
@@ -419,11 +419,13 @@ def run_query(spec, hb, q, args, known):
             full = ('consumed=%d of %d' % (len(wvec), len(wvec))) in out
             # exit 10 = the end was reached but an assertion failed on the way: the witness input happens to be a
             # counterexample too (assertions do not block paths); that is still a faithful replay
-            if code not in (0, 10) or not full:
+            if (code not in (0, 10) or not full) and cands and (code in (20, 21) or code < 0):
+                pass      # the witness input itself trips a sanitizer natively: a counterexample is about to be replayed
+            elif code not in (0, 10) or not full:
                 qr.verdict = 'INCONCLUSIVE'
                 qr.detail = 'witness trace does not replay on the native build (encoding/model mismatch): exit %d: %s' % (code, out[-800:])
                 return qr
-            qr.witness_replayed = True
+            qr.witness_replayed = code in (0, 10) and full
         qr.samples.append({'witness_input_vector': ['%s:%x' % v for v in wvec[:64]], 'n_values': len(wvec)})
         # ---- counterexamples
         seen_labels = set()
